@@ -274,6 +274,55 @@ func contended(mqtt bool) (string, map[string]interface{}) {
 	return vlib.App("CConc", vlib.Bool(mqtt), vlib.List(ops), obsTerm(t)), map[string]interface{}{"mqtt": mqtt, "goroutines": len(subs), "ops_each": per, "contended": true}
 }
 
+// bigShare: a share group with n members is looked up, then dissolved; afterwards lone members of
+// other groups (and of the same group) must be the only picks - nothing of the dissolved group may
+// linger in whatever scratch space the lookup uses.
+func bigShare(mqtt bool, n int) (string, map[string]interface{}) {
+	var t *message.Trie
+	if mqtt {
+		t = message.NewTrieMQTT()
+	} else {
+		t = message.NewTrie()
+	}
+	var ops []string
+	var members []*fakeSub
+	big := message.Ssid{7, share, 100, 11}
+	for i := 0; i < n; i++ {
+		m := &fakeSub{id: fmt.Sprintf("big-%d", i)}
+		members = append(members, m)
+		t.Subscribe(big, m)
+		ops = append(ops, vlib.App("TSubQ", ssidTerm(big), vlib.N(uint64(hash.OfString(m.id)))))
+	}
+	look := func(q message.Ssid, times int) {
+		for i := 0; i < times; i++ {
+			ops = append(ops, vlib.App("TLookup", ssidTerm(q), lookupTerm(t, q)))
+		}
+	}
+	look(message.Ssid{7, 11}, 3)
+	lone := &fakeSub{id: "lone"}
+	other := message.Ssid{7, share, 101, 12}
+	t.Subscribe(other, lone)
+	ops = append(ops, vlib.App("TSub", ssidTerm(other), vlib.N(uint64(hash.OfString(lone.id))), obsTerm(t)))
+	look(message.Ssid{7, 12}, 4)
+	look(message.Ssid{7, 11}, 2)
+	for _, m := range members {
+		t.Unsubscribe(big, m)
+		ops = append(ops, vlib.App("TUnsubQ", ssidTerm(big), vlib.N(uint64(hash.OfString(m.id)))))
+	}
+	look(message.Ssid{7, 12}, 4)
+	look(message.Ssid{7, 11}, 3)
+	again := &fakeSub{id: "again"}
+	t.Subscribe(big, again)
+	ops = append(ops, vlib.App("TSub", ssidTerm(big), vlib.N(uint64(hash.OfString(again.id))), obsTerm(t)))
+	look(message.Ssid{7, 11}, 4)
+	look(message.Ssid{7, 12}, 2)
+	t.Unsubscribe(big, again)
+	ops = append(ops, vlib.App("TUnsub", ssidTerm(big), vlib.N(uint64(hash.OfString(again.id))), obsTerm(t)))
+	t.Unsubscribe(other, lone)
+	ops = append(ops, vlib.App("TUnsub", ssidTerm(other), vlib.N(uint64(hash.OfString(lone.id))), obsTerm(t)))
+	return vlib.App("CTrie", vlib.Bool(mqtt), vlib.List(ops)), map[string]interface{}{"mqtt": mqtt, "ops": len(ops), "share_group_members": n}
+}
+
 func main() {
 	cfg = vlib.ParseFlags()
 	for i := 0; i < 6; i++ {
@@ -298,5 +347,11 @@ func main() {
 		t, h := contended(i%2 == 1)
 		sh.Add(t, h, "concurrent-contended", true)
 	}
-	sh.Finish("histories of subscribe / unsubscribe / lookup over 6 subscribers, contract 7 (rarely 8), levels {a,b,c,+,#} depth 0-3, share groups g0-g2, duplicates and repeated removals on purpose, both matcher modes, closing removal of everything held; after every operation Count, node count and the stored pairs; concurrent: 6 goroutines x 30 operations, final state vs model; non-trivial: all")
+	for i, n := range []int{40, 128, 129, 200, 300} {
+		t, h := bigShare(i%2 == 1, n)
+		sh.Add(t, h, "big-share-group", true)
+		t, h = bigShare(i%2 == 0, n)
+		sh.Add(t, h, "big-share-group", true)
+	}
+	sh.Finish("histories of subscribe / unsubscribe / lookup over 6 subscribers, contract 7 (rarely 8), levels {a,b,c,+,#} depth 0-3, share groups g0-g2, duplicates and repeated removals on purpose, both matcher modes, closing removal of everything held; after every operation Count, node count and the stored pairs; concurrent: 6 goroutines x 30 operations, final state vs model; share groups of 40-300 members looked up, dissolved and followed by lookups of lone members of other groups; non-trivial: all")
 }
